@@ -7,23 +7,37 @@ package protocol
 // transports under the relay goroutine, nor end or re-run the tunnel.
 
 import (
+	"context"
 	"net/http"
 
 	"github.com/bolkedebruin/rdpgw/cmd/rdpgw/identity"
 )
 
 //vp:property C07 C01
-//vp:bounds one legacy tunnel (RDG_OUT_DATA then RDG_IN_DATA, connection id "conn-1", full set-up, one DATA packet, then the client drops; its host has one chunk for the client); while the packet loop waits for its at-th packet (at = 1..5) a third request with the same connection id arrives from another client: a second legacy RDG_OUT_DATA, a websocket upgrade (which sends a handshake and drops), or a second RDG_IN_DATA (handshake, then drops)
-//vp:assume one cooperative schedule per choice of `at` (the third request is served in full at that moment); the relay goroutine runs whenever the packet loop waits for the client
+//vp:bounds one legacy tunnel of client alice (RDG_OUT_DATA then RDG_IN_DATA, connection id "conn-1", full set-up, one DATA packet, then the client drops; its host has one chunk for the client); between the two requests (at = 0) or while the packet loop waits for its at-th packet (at = 1..5) a third request with the same connection id arrives from client bob: a second legacy RDG_OUT_DATA, a websocket upgrade (handshake, tunnel-create, then drops), a second RDG_IN_DATA (handshake, then drops; not at 0, where it would simply BE the tunnel's inbound connection), or an RDG_OUT_DATA request with only one of the two upgrade headers (Upgrade: websocket without Connection: upgrade, or the reverse), which cannot be upgraded
+//vp:assume one cooperative schedule per choice of `at` (the third request is served in full at that moment); the relay goroutine runs whenever the packet loop waits for the client; the token callback notes on the tunnel of its context who presented the token (as the security package's callback does)
 //vp:reach ended third-served
 func VP_C07_live_takeover() {
 	vpResetHandlers()
 	g := &Gateway{}
 	idA, idB := vpUser(), vpUser()
-	mk := func(id identity.Identity, method string, ws bool) *http.Request {
+	idA.SetUserName("alice")
+	idB.SetUserName("bob")
+	idB.SetAttribute(identity.AttrClientIp, "10.0.0.2")
+	idB.SetAttribute(identity.AttrRemoteAddr, "10.0.0.2:4321")
+	noted := map[*Tunnel]string{}
+	g.CheckPAACookie = func(ctx context.Context, cookie string) (bool, error) {
+		if t, ok := ctx.Value(CtxTunnel).(*Tunnel); ok && t != nil {
+			noted[t] = identity.FromCtx(ctx).UserName()
+		}
+		return true, nil
+	}
+	mk := func(id identity.Identity, method string, hdrs int) *http.Request {
 		hdr := http.Header{"Rdg-Connection-Id": {"conn-1"}}
-		if ws {
+		if hdrs&1 != 0 {
 			hdr["Connection"] = []string{"upgrade"}
+		}
+		if hdrs&2 != 0 {
 			hdr["Upgrade"] = []string{"websocket"}
 		}
 		return identity.AddToRequestCtx(id, &http.Request{Method: method, Header: hdr})
@@ -31,32 +45,44 @@ func VP_C07_live_takeover() {
 	out1 := &vpTransport{}
 	in1 := vpScript(5, 0) // set-up (4), DATA, then the connection drops
 	in1.yieldOnRead = true
-	third := vpScript(1, 0) // what the third connection sends if it is read from: a handshake, then it drops
+	third := vpScript(2, 0) // what the third connection sends if it is read from: handshake, tunnel-create, then it drops
 	vpBackendChunk = []byte{0x5A, 0x5B}
 	vpAssume(!vpBool("dialfail1")) // the host is reachable
-	kind := vpIntRange("third-request-kind", 0, 2) // 0 legacy OUT, 1 websocket upgrade, 2 legacy IN
-	at := vpIntRange("third-request-arrives-before-packet", 1, 5)
+	kind := vpIntRange("third-request-kind", 0, 4) // 0 legacy OUT, 1 websocket upgrade, 2 legacy IN, 3 / 4 half an upgrade
+	at := vpIntRange("third-request-arrives-before-packet", 0, 5)
+	vpAssume(!(at == 0 && kind == 2))
 	served := false
+	serveThird := func() {
+		served = true
+		w := &vpHTTPW{hdr: http.Header{}, tr: third}
+		switch kind {
+		case 0:
+			g.HandleGatewayProtocol(w, mk(idB, MethodRDGOUT, 0))
+		case 1:
+			vpNextTransportFor(third)
+			g.HandleGatewayProtocol(&vpHTTPW{hdr: http.Header{}}, mk(idB, MethodRDGOUT, 3))
+		case 2:
+			g.HandleGatewayProtocol(w, mk(idB, MethodRDGIN, 0))
+		case 3:
+			g.HandleGatewayProtocol(w, mk(idB, MethodRDGOUT, 2))
+		case 4:
+			g.HandleGatewayProtocol(w, mk(idB, MethodRDGOUT, 1))
+		}
+	}
 	inner := in1.gen
 	in1.ngen = 5
 	in1.gen = func(i int) []byte {
 		if i == at && !served {
-			served = true
-			vpNextTransportFor(third)
-			switch kind {
-			case 0:
-				g.HandleGatewayProtocol(&vpHTTPW{hdr: http.Header{}}, mk(idB, MethodRDGOUT, false))
-			case 1:
-				g.HandleGatewayProtocol(&vpHTTPW{hdr: http.Header{}}, mk(idB, MethodRDGOUT, true))
-			case 2:
-				g.HandleGatewayProtocol(&vpHTTPW{hdr: http.Header{}}, mk(idB, MethodRDGIN, false))
-			}
+			serveThird()
 		}
 		return inner(i)
 	}
-	vpNextTransports = []*vpTransport{out1, in1}
-	g.HandleGatewayProtocol(&vpHTTPW{hdr: http.Header{}}, mk(idA, MethodRDGOUT, false))
-	g.HandleGatewayProtocol(&vpHTTPW{hdr: http.Header{}}, mk(idA, MethodRDGIN, false))
+	g.HandleGatewayProtocol(&vpHTTPW{hdr: http.Header{}, tr: out1}, mk(idA, MethodRDGOUT, 0))
+	live, _ := vpCache["conn-1"].(*Tunnel)
+	if at == 0 {
+		serveThird()
+	}
+	g.HandleGatewayProtocol(&vpHTTPW{hdr: http.Header{}, tr: in1}, mk(idA, MethodRDGIN, 0))
 	vpRunTasks()
 	vpReach("ended")
 	if served {
@@ -82,13 +108,18 @@ func VP_C07_live_takeover() {
 		w := vpDialConns[0].written
 		vpAssert(len(w) == 1 && len(w[0]) == 1, "live-tunnel-host-receives-its-clients-payload-only")
 	}
+	// what the callbacks note on "the tunnel of this request" lands on the live tunnel for its own client only
+	vpAssert(live != nil, "outbound-request-remembers-its-tunnel")
+	if live != nil {
+		vpAssert(noted[live] == "alice", "another-connections-callbacks-do-not-see-the-live-tunnel")
+	}
 	// the third connection gets nothing of the live tunnel: no packet at all for a legacy request (it has
-	// no packet loop of its own), at most the answer to its own handshake for a websocket
+	// no packet loop of its own), at most the answers to its own packets for a websocket
 	for _, p := range third.out {
 		vpAssert(!(len(p) >= 2 && p[0] == 0xA), "third-connection-receives-nothing-of-the-live-tunnels-host-stream")
 	}
 	if kind == 1 {
-		vpAssert(len(third.out) <= 1, "websocket-connection-receives-only-answers-to-its-own-packets")
+		vpAssert(len(third.out) <= 2, "websocket-connection-receives-only-answers-to-its-own-packets")
 	} else {
 		vpAssert(len(third.out) == 0, "further-legacy-connection-receives-nothing-of-the-live-tunnel")
 	}
